@@ -221,6 +221,10 @@ class _AttrBase(Prop):
         if g["kind"] == "attr_seg":
             s = uncps(g["s"])
             way = g["way"]
+            if g.get("prime"):
+                # the same text is first escaped for the TEXT context in this process
+                H.html_escape(s)
+                H.tags.div(H.tags.h1(s), s).get_html_string()
 
             def r(x):
                 if way == "kw":
@@ -305,6 +309,12 @@ class C03(_AttrBase):
         for _ in range(500 if tier == "quick" else 10000):
             gens.append({"kind": "attr_seg", "s": cps(gamma.rand_text(rnd, rnd.choice([5, 30, 100]))),
                          "way": rnd.choice(["kw", "dict", "setitem", "update", "void", "mid"])})
+        # history dependence: the same string rendered as text first, then as an attribute value
+        for j, s in enumerate(gamma.HOSTILE + ["Tom & \"Jerry\"", "a<b 'c'", "x & y\nz"]):
+            gens.append({"kind": "attr_seg", "s": cps("p" + str(j) + s), "way": ["kw", "dict", "void"][j % 3], "prime": True})
+        for _ in range(200 if tier == "quick" else 4000):
+            gens.append({"kind": "attr_seg", "s": cps(gamma.rand_text(rnd, rnd.choice([6, 20, 60]))),
+                         "way": rnd.choice(["kw", "dict", "setitem", "update", "void", "mid"]), "prime": True})
         return gens
 
 
